@@ -140,8 +140,9 @@ type appEnv struct {
 }
 
 var (
-	envMu sync.Mutex
-	envs  = map[int]*appEnv{}
+	envMu  sync.Mutex
+	envUse sync.Mutex
+	envs   = map[int]*appEnv{}
 )
 
 func getEnv(bs int) *appEnv {
@@ -185,6 +186,33 @@ func closeEnvs() {
 		os.RemoveAll(e.dir)
 		delete(envs, k)
 	}
+}
+
+// applyBlock executes and commits one block the way gemmill/state/execution.go does: OnExecute
+// hook, pool.Update(height, txs+extxs), OnCommit hook (which makes the pool run updateToState).
+func (e *appEnv) applyBlock(txs, extxs []gtypes.Tx) gtypes.ExecuteResult {
+	e.height++
+	blk := &gtypes.Block{
+		Header: &gtypes.Header{
+			ChainID:        "c19",
+			Height:         e.height,
+			Time:           time.Unix(1500000000+e.height, 0),
+			NumTxs:         int64(len(txs) + len(extxs)),
+			ValidatorsHash: valHash,
+		},
+		Data:       &gtypes.Data{Txs: txs, ExTxs: extxs},
+		LastCommit: &gtypes.Commit{},
+	}
+	resI, err := e.app.OnExecute(e.height, 0, blk)
+	if err != nil {
+		panic(fmt.Sprintf("harness: OnExecute: %v", err))
+	}
+	res := resI.(gtypes.ExecuteResult)
+	e.pool.Update(e.height, append(append([]gtypes.Tx{}, txs...), extxs...))
+	if _, err := e.app.OnCommit(e.height, 0, blk); err != nil {
+		panic(fmt.Sprintf("harness: OnCommit: %v", err))
+	}
+	return res
 }
 
 func caseKey(epoch uint64, i int) *ecdsa.PrivateKey {
@@ -233,6 +261,10 @@ type model struct {
 	// accepted at capacity): the only txs the known `all`-index leak can be explained by.
 	leakBudget    int
 	staleAccepted int
+	// linger: txs that went stale at a commit after which the pool was still at capacity. The pool
+	// cleans its waiting queue lazily (promoteExecutables stops as soon as pending is full), so
+	// these may stay in the waiting queue (and in Size) until a commit leaves the pool below capacity.
+	linger int
 }
 
 func newModel(limit int) *model {
@@ -307,15 +339,27 @@ func (m *model) flush() {
 	m.admMust = map[*rec]bool{}
 	m.leakBudget = 0
 	m.staleAccepted = 0
+	m.linger = 0
 }
 
 // dropStale removes everything below the state nonce from the model (after a commit).
 func (m *model) dropStale() {
+	dropped := 0
+	defer func() {
+		if m.ethCount() >= m.limit {
+			m.linger += dropped
+		} else {
+			m.linger = 0
+		}
+	}()
 	for a := 0; a < nAcc; a++ {
 		for n, l := range m.may[a] {
 			if n < m.s[a] {
 				for _, rc := range l {
 					rc.held = false
+					if !rc.committed {
+						dropped++
+					}
 				}
 				delete(m.may[a], n)
 			}
@@ -673,7 +717,7 @@ func (r *runner) checkSize() {
 	m := r.m
 	sz := r.pool.Size()
 	hard := 3 * m.limit
-	allowed := m.ethCount() + m.staleAccepted + len(m.adm)
+	allowed := m.ethCount() + m.staleAccepted + len(m.adm) + m.linger
 	if sz > allowed {
 		excess := sz - allowed
 		sig := "size-counts-txs-the-pool-cannot-hold"
@@ -784,27 +828,7 @@ func (r *runner) commitBlock(eth [nAcc][]*rec, adm []*rec) {
 	for _, rc := range adm {
 		extxs = append(extxs, gtypes.Tx(rc.raw))
 	}
-	e.height++
-	blk := &gtypes.Block{
-		Header: &gtypes.Header{
-			ChainID:        "c19",
-			Height:         e.height,
-			Time:           time.Unix(1500000000+e.height, 0),
-			NumTxs:         int64(len(txs) + len(extxs)),
-			ValidatorsHash: valHash,
-		},
-		Data:       &gtypes.Data{Txs: txs, ExTxs: extxs},
-		LastCommit: &gtypes.Commit{},
-	}
-	resI, err := e.app.OnExecute(e.height, 0, blk)
-	if err != nil {
-		panic(fmt.Sprintf("harness: OnExecute: %v", err))
-	}
-	res := resI.(gtypes.ExecuteResult)
-	e.pool.Update(e.height, append(append([]gtypes.Tx{}, txs...), extxs...))
-	if _, err := e.app.OnCommit(e.height, 0, blk); err != nil {
-		panic(fmt.Sprintf("harness: OnCommit: %v", err))
-	}
+	res := e.applyBlock(txs, extxs)
 	// model
 	valid := 0
 	for a := 0; a < nAcc; a++ {
@@ -1044,6 +1068,8 @@ func runPool(c PoolCase, x *h.Ctx) {
 	if bs != 1 && bs != 3 {
 		bs = 1
 	}
+	envUse.Lock() // one case at a time per process (the app is shared)
+	defer envUse.Unlock()
 	e := getEnv(bs)
 	r := newRunner(e, x)
 	defer func() {
